@@ -36,7 +36,8 @@ func init() {
 			"value form of every return; program text is rendered by the harness writer, run through ReadString+Eval in a fresh scope, and value, " +
 			"ordered trace, condition class, mutex state (TryLock from Go) and stream state (os.File closed, from Go) are compared with ref/eval; " +
 			"a failing case is re-run on the shorter nesting [target, sub-chain below the blamed form] so that its signature names the smallest " +
-			"nesting that shows the failure; a case is non-trivial when a non-normal exit crosses at least one intervening form on the way to its target",
+			"nesting that shows the failure, and a lost return-from / return / go that crosses several forms is re-run on [target, one crossed form] " +
+			"for each of them so that the signature names the form that loses it (through=...); a case is non-trivial when a non-normal exit crosses at least one intervening form on the way to its target",
 		Assumptions: []string{
 			"ref/eval is the oracle (lexical targets by construction; exits as Go panics)",
 			"exits (return-from / return / go) are placed in body positions only (never in argument, test or binding-init positions); the cleanup forms of unwind-protect are body positions (positions cn/ce/cr/cg); errors are also placed inside cleanup forms (positions pe/pd/pu/pt)",
@@ -49,7 +50,8 @@ func init() {
 			"the 'original condition class' of an error form is the class slip itself reports when that form is evaluated alone at top level",
 			"tagbody tags are integers in the main alphabet; symbol tags are the separate kind tagbody-sym, used only in the complete depths, and while the build under test evaluates a fallen-through symbol tag (probed once per process) programs holding one get coarse signatures (ctx=tagbody-sym ...)",
 			"a defun context is defined at top level (a lexical boundary: outer blocks and tags are not visible in it); defun-in is defined inside its parent's body and lambda is called in place, so both see the enclosing blocks and tags",
-			"(funcall f) with no further argument is rejected by slip (a C04 finding), so lambdas take one dummy argument",
+			"the kind lambda of the first rounds takes one dummy argument ((funcall f) without one was rejected by slip then, a C04 finding repaired since); the closure kinds funcall-lambda, lambda-form, apply-lambda and let-lambda (round 6) are anonymous functions called in place by funcall / as the head of the form / by apply / through a let variable; all of them are transparent: every block, tag and function block around the call is visible in the body",
+			"a closure passed to a built-in higher-order function (mapcar, mapc, every, some, reduce, sort, maphash, ...) is not a body position and not enumerated (observed: slip treats the exit marker as the function's value there)",
 			"re-entrant exits (reentrant.go): 7 exit kinds x recursion from the cleanup form (direct / through a helper) x with and without a completed warm-up call x recursion depth 1..2 (1..4 thorough): the same exit form runs again while the outer activation's exit is still in flight",
 		},
 		Enumerate: enumerate,
@@ -447,6 +449,7 @@ func cfg(tier string) tierCfg {
 func isEnder(k *kindInfo) bool {
 	return strings.HasPrefix(k.name, "block-") || isTagbody(k) || isLoop(k) || isBoundary(k) || hasFnBlock(k) || isHandler(k) ||
 		k.name == "lambda" || k.name == "unwind-protect"
+	// (the closure kinds of round 6 are not enders: nothing ends at the call of an anonymous function)
 }
 
 // reactsToError: one of the levels has something to do when an error passes (a cleanup, a handler, a mutex or a stream
@@ -1010,7 +1013,7 @@ func execProgram(p *program, reduce, resources bool) (res engine.Result) {
 				res.Hit("mutex-on-exit-path")
 			case "with-open-file":
 				res.Hit("stream-on-exit-path")
-			case "defun", "lambda", "defun-in", "flavor-method", "whopper", "generic-method":
+			case "defun", "lambda", "defun-in", "flavor-method", "whopper", "generic-method", "funcall-lambda", "lambda-form", "apply-lambda", "let-lambda":
 				res.Hit("exit-through-function")
 			}
 			if strings.HasSuffix(p.ctxs[i].pos, "2") {
@@ -1142,8 +1145,13 @@ func execProgram(p *program, reduce, resources bool) (res engine.Result) {
 		// everything above it; (b) any other verdict is retried without the contexts around the
 		// target (which only decide what comes *after* the transfer). If the shorter program fails
 		// too, its verdict is reported; if it passes, the longer program's own verdict stands.
+		if sf := singleCrossing(p, tgt, exitSig, blamed, spec); 0 < len(sf) {
+			res.Failures = sf
+			reduce = false
+		}
 		from := -1
 		switch {
+		case !reduce:
 		case 0 <= blamed && blamed < n-1:
 			from = blamed + 1
 		case 0 < tgt:
@@ -1212,6 +1220,50 @@ func execProgram(p *program, reduce, resources bool) (res engine.Result) {
 		res.Hit("nontrivial-passed") // S9: what is left live beside the listed findings
 	}
 	return
+}
+
+// crossedKinds names the forms between the target and the slot of a plain return-from / return / go ("" otherwise).
+func crossedKinds(p *program, tgt int, exitSig string) string {
+	if tgt < 0 || !isControl(exitSig) || strings.Contains(exitSig, "+") {
+		return ""
+	}
+	var names []string
+	for _, c := range p.ctxs[tgt+1:] {
+		names = append(names, c.kind.sig)
+	}
+	return strings.Join(names, "+")
+}
+
+// singleCrossing: a verdict other than "a crossed form carried on" about a plain return-from / return / go that crosses
+// two or more forms is retried on [target, one crossed form] for each crossed form, innermost first; the first of
+// these that fails too gives the verdict, so that the signature names the one form that loses the exit.
+func singleCrossing(p *program, tgt int, exitSig string, blamed int, spec string) []engine.Failure {
+	n := len(p.ctxs)
+	if 0 <= blamed || crossedKinds(p, tgt, exitSig) == "" || n-1-tgt < 2 {
+		return nil
+	}
+	for i := n - 1; tgt < i; i-- {
+		sp := &program{ctxs: []ctx{{p.ctxs[tgt].kind, canonPos(p.ctxs[tgt].kind)}, p.ctxs[i]}, exit: p.exit}
+		if strings.HasPrefix(p.exit, "go-") {
+			sp.exit = "go-0" + p.exit[len(p.exit)-1:]
+		}
+		if !validNesting(sp.ctxs) {
+			continue
+		}
+		if t, _ := target(sp); t != 0 {
+			continue
+		}
+		var keep []engine.Failure
+		for _, f := range execProgram(sp, false, false).Failures {
+			if !strings.HasPrefix(f.Sig, "harness:") {
+				keep = append(keep, engine.Failure{Sig: f.Sig, Detail: "reduced from " + spec + " to " + sp.spec() + "\n" + f.Detail})
+			}
+		}
+		if 0 < len(keep) {
+			return keep
+		}
+	}
+	return nil
 }
 
 func resourceSig(p *program, exitSig string, tgt int, kind string) string {
@@ -1384,6 +1436,10 @@ func judge(res *engine.Result, b *built, ex *expectation, o *observation, tgt in
 		}
 		if rest != "" {
 			rest = " " + rest
+		}
+		// a return-from / return / go that got lost on its way without any crossed form carrying on: name the crossed forms
+		if through := crossedKinds(p, tgt, exitSig); through != "" {
+			rest += " through=" + through
 		}
 		res.Fail(prefix+"kind="+kind+rest, detail)
 	}
@@ -1594,7 +1650,8 @@ func selftest(tier string) (killed, total int, notes []string) {
 	}
 	mutants = append(mutants,
 		mutant{"a return-from / return / go inside a cleanup form is discarded", eval.Mutations{CleanupExitIgnored: true}},
-		mutant{"the cleanup forms start again when one of them leaves by return-from / return / go", eval.Mutations{CleanupExitRerunsCleanup: true}})
+		mutant{"the cleanup forms start again when one of them leaves by return-from / return / go", eval.Mutations{CleanupExitRerunsCleanup: true}},
+		mutant{"the call of an anonymous function consumes a return to a nil block outside of it", eval.Mutations{LambdaConsumesNilReturn: true}})
 	total = len(mutants)
 	alive := make([]bool, total)
 	for i := range alive {
